@@ -91,6 +91,16 @@ def reload_config(o, via):
     used as a parameter value like any other configuration)"""
     from experimaestro.core import serialization
     from experimaestro.core.context import SerializationContext
+    if via == "copy":
+        return o.copy()
+    if via == "copyconfig":
+        from experimaestro import copyconfig
+        try:
+            return copyconfig(o)
+        except KeyError:
+            # copyconfig needs every declared parameter to have a value (it lists them all): an incomplete
+            # configuration is copied with .copy() instead
+            return o.copy()
     if via == "state":
         return serialization.from_state_dict(serialization.state_dict(SerializationContext(), o))
     import tempfile
